@@ -257,12 +257,13 @@ static void debug_without_chunksize(unsigned int opcode_len, uint8_t *ptr) {
 }
 
 /**
- * prints out the machine code stored in @param buf up to @param chunk_size
- * bytes
+ * prints out the machine code stored in @param buf from @param start up to
+ * @param opcode_pos, marking every @param chunk_size bytes
  */
-static void debug_with_chunksize(uint8_t *buf, unsigned int opcode_pos,
+static void debug_with_chunksize(uint8_t *buf, unsigned int start,
+                                 unsigned int opcode_pos,
                                  const size_t chunk_size) {
-  for (unsigned int i = 0; i < opcode_pos; i++) {
+  for (unsigned int i = start; i < opcode_pos; i++) {
     if (i % chunk_size == 0 && chunk_size > 1 && i != 0)
       printf("|\n");
     printf("%02x ", buf[i]);
@@ -397,6 +398,6 @@ int assemble_all(assemblyline_t al, const char *str, int *dest) {
   }
   // print machine code with chunk boundary fitting
   if (al->assembly_mode == CHUNK_FITTING && al->debug)
-    debug_with_chunksize(al->buffer, buf_pos, al->chunk_size);
+    debug_with_chunksize(al->buffer, al->offset, buf_pos, al->chunk_size);
   return (int)buf_pos;
 }
